@@ -38,3 +38,25 @@ Definition match_group (m : option (pstr * pstr)) (n : Z) : pstr :=
 Definition join_underscore (a b : pstr) : pstr := a ++ [95] ++ b.
 Definition dir_exists (n : pstr) : bool := match find_locale n with Some _ => true | None => false end.
 Definition locale_module (n : pstr) : locale := match find_locale n with Some L => L | None => loc_en end.   (* ImportError not modelled: guarded by exists() *)
+
+(* ------------------------------------------------------------------ Duration.in_words / Interval.in_words (the skeleton; Gen/HumanizeGlue.v)
+   * the receiver (gwords): its seven component properties (years, months, weeks, remaining_days, hours, minutes, remaining_seconds) and
+     .microseconds, as VALUES (where they come from is C06/C14's matter);
+   * parts: a list of str (lpstr); `parts.append(x)` on that fresh, never aliased local = lp_append; `if not parts` = negb lp_truth;
+   * the key f"units.{unit}.{cls}" is the pair (unit, cls) (ukey); loaded_locale.translation(key) = loc_translation: Locale.translation prefixes
+     "translations." and Locale.get splits the key at the dots and walks the data (Model/LocaleBase.v lookup) — that split is HAND-MODELLED here
+     (the unit names and the plural classes contain no dot); Locale._key_cache is not modelled;
+   * loaded_locale.plural(n) = the generated plural expression of the locale evaluated at n (LocaleBase.lplural);
+   * translation.format(x) uses x only through str(x) (the shipped templates carry bare {} / {0} fields; LocaleBase.node_format);
+   * f"{abs(us) / 1e6:.2f}" = DiffFormat.fmt2 (binary64 division then rounding to hundredths, hand model);
+   * `locale or d` on an optional str (Interval.in_words): d for None AND for "". *)
+Definition lpstr : Type := list pstr.
+Definition ukey : Type := (string * string)%type.
+Record gwords := mkgwords { gw_comp : comp; gw_us : Z }.
+Definition loc_plural (L : gloc) (n : Z) : string := lplural (gl_data L) n.
+Definition mk_ukey (u cls : string) : ukey := (u, cls).
+Definition loc_translation (L : gloc) (k : ukey) : result (option node) := lget (gl_data L) ["translations"; "units"; fst k; snd k]%string.
+Definition lp_nil : lpstr := [].
+Definition lp_truth (l : lpstr) : bool := match l with [] => false | _ => true end.
+Definition lp_append (l : lpstr) (x : pstr) : lpstr := l ++ [x].
+Definition opt_str_or (o : option pstr) (d : pstr) : pstr := match o with Some (c :: r) => c :: r | _ => d end.
